@@ -135,7 +135,10 @@ class Report:
         if new_viol and not os.environ.get("HV_NO_SHAPE"):
             kept = []
             for o in new_viol:
-                d = _restructured(o.site)
+                # an algebraic identity that was extracted and then fails is a failure of the formulas
+                # themselves, whatever the shape of the function: never demoted
+                algebraic = str(o.detail).startswith(("residual ", "g_12 - e_x", "x-y form ==", "difference "))
+                d = None if algebraic else _restructured(o.site)
                 if d is not None:
                     o.status = "undecided-restructured"
                     self.errors.append({"rule": o.rule, "site": o.site,
